@@ -9,12 +9,48 @@
    nothing - no Go type, no template, no helper - has been used before several renders use it
    at once).  A goroutine may render its job several times per round; [calls] has one entry per
    goroutine and DISTINCT result it got (a correct engine: exactly one per goroutine). *)
+From Coq Require Export Uint63.   (* case files write %uint63 literals *)
 From PV Require Import Base.Bytes Models.Sched Run.Verdict.
+
+(* ---- long outputs in case files (as in Run/Judge_C14.v) ----
+   A string literal costs 100-300 us per byte to elaborate; outputs of kilobytes (the storms of
+   many goroutines over deep data) are written as a list of primitive 63-bit integers instead,
+   7 bytes per integer, lowest byte first, below a sentinel bit (so that a word may carry fewer
+   than 7 bytes and zero bytes survive).  Decoding only; nothing is proved about primitive
+   integers and no theorem mentions them. *)
+Definition bit63 (v k : Uint63.int) : bool :=
+  negb (Uint63.is_zero (PrimInt63.land (PrimInt63.lsr v k) 1%uint63)).
+
+Definition byte_of_word (v : Uint63.int) : ascii :=
+  Ascii (bit63 v 0%uint63) (bit63 v 1%uint63) (bit63 v 2%uint63) (bit63 v 3%uint63)
+        (bit63 v 4%uint63) (bit63 v 5%uint63) (bit63 v 6%uint63) (bit63 v 7%uint63).
+
+Fixpoint word_go (fuel : nat) (v : Uint63.int) (acc : bytes) : bytes :=
+  match fuel with
+  | O => acc
+  | S f => if PrimInt63.leb v 1%uint63 then acc
+           else byte_of_word v :: word_go f (PrimInt63.lsr v 8%uint63) acc
+  end.
+
+Fixpoint unpack (ws : list Uint63.int) : bytes :=
+  match ws with
+  | [] => []
+  | w :: r => word_go 7 w (unpack r)
+  end.
+
+Example unpack_example :
+  unpack [99453508561040499%uint63; 81628010175558503%uint63; 295%uint63] =
+  B "stripTags<&>" ++ ["000"%char; """"%char; "'"%char].
+Proof. vm_compute. reflexivity. Qed.
 
 Record round08 := {
   calls : list (nat * result);         (* per goroutine: job index, what Render returned: inl out | inr class *)
   sched : list nat;                    (* an interleaving of the calls' model steps *)
 }.
+
+(* schedules are written run-length encoded: [(g, k)] = k steps of call g in a row *)
+Definition rle (l : list (nat * nat)) : list nat :=
+  flat_map (fun gk => repeat (fst gk) (snd gk)) l.
 
 Record case08 := {
   seq : list result;                   (* Render(job) alone, before the storm *)
@@ -24,9 +60,18 @@ Record case08 := {
   crashed : bool;                      (* the process died (fatal error: concurrent map ...) *)
 }.
 
+(* equality of outputs by plain recursion (Base.Bytes.beqb goes through list_eq_dec, whose proof
+   terms cost microseconds per byte: too slow for 256 results of kilobytes per case) *)
+Fixpoint bytes_eqb (a b : bytes) : bool :=
+  match a, b with
+  | [], [] => true
+  | x :: a', y :: b' => Ascii.eqb x y && bytes_eqb a' b'
+  | _, _ => false
+  end.
+
 Definition res_eqb (a b : result) : bool :=
   match a, b with
-  | inl x, inl y => beqb x y
+  | inl x, inl y => bytes_eqb x y
   | inr j, inr k => Nat.eqb j k
   | _, _ => false
   end.
